@@ -798,8 +798,20 @@ class MaskedSel(object):
     def ndim(self):
         return 1
 
+    def _reduce(self, name):
+        if MASKED_REDUCE_HOOK is None:
+            raise AnalysisError('%s of a selection by an undetermined boolean mask' % name)
+        return MASKED_REDUCE_HOOK(self, name)
+
+    def min(self, axis=None):
+        return self._reduce('min')
+
+    def max(self, axis=None):
+        return self._reduce('max')
+
 
 MASKED_SIZE_HOOK = None      # set by the data-abstract domain: number of selected elements as an unknown integer
+MASKED_REDUCE_HOOK = None    # set by the data-abstract domain: min / max of the selected elements (join of the candidates)
 
 
 class Choice(object):
@@ -1291,11 +1303,28 @@ def concrete_real(x):
     return None
 
 
+def _extended_real(x):
+    """concrete_real, or +-math.inf for a positive / negative rational multiple of np.inf, else None"""
+    from .algebra import Poly
+    c = concrete_real(x)
+    if c is not None:
+        return c
+    if isinstance(x, Poly) and x.is_monomial():
+        (mono, coef), = x.t.items()
+        if mono == (('inf', Fr(1)),) and coef.is_rational() and coef.rational() != 0:
+            import math
+            return math.inf if coef.rational() > 0 else -math.inf
+    return None
+
+
 def s_cmp(op, a, b):
     from .algebra import Poly, Rat, Z8, alg_equal
     ca, cb = concrete_real(a), concrete_real(b)
     if ca is not None and cb is not None:
         return _CMP[op](ca, cb)
+    ea, eb = _extended_real(a), _extended_real(b)
+    if ea is not None and eb is not None:
+        return _CMP[op](ea, eb)          # a number against +-inf, or two infinities
     if isinstance(a, str) or isinstance(b, str) or a is None or b is None:
         return _CMP[op](a, b) if op in ('==', '!=') else _raise_cmp(a, b)
     hook = getattr(a, 'cmp_', None)
